@@ -423,6 +423,14 @@ def kaifa_case(rng, layout: str | None = None) -> Case:
             values[pos] = ce.datetime_octets(a12)
             expect_body["meter_datetime"] = ("dt", aspec)
             tags.append("list_clock_same_instant_as_apdu")
+    elif "meter_datetime" in expect_body and dt12 is not None and rng.random() < 0.2:
+        # the list clock shows the same civil second as the APDU clock but carries neither hundredths nor a deviation
+        y, mo, d, h, mi, s_ = spec["civil"]
+        plain12 = ce.datetime12(y, mo, d, 0xFF, h, mi, s_, None, None, rng.choice((0, 0xFF, 0x80)))
+        pos = order.index("meter_datetime")
+        values[pos] = ce.datetime_octets(plain12)
+        expect_body["meter_datetime"] = ("dt", dict(spec, us=0, offset_min=None, deviation=None, hundredths=None))
+        tags.append("list_clock_same_second_as_apdu_without_hundredths_and_deviation")
     body = ce.kaifa_value_body(values)
     frame = ce.apdu(body, dt12, tagged)
     expect_frame = dict(expect_body)
@@ -457,7 +465,7 @@ KAMSTRUP_LAYOUTS = {
 
 
 def meter_type_text(rng) -> str:
-    prefix = rng.choice(("685", "685", "684", "686", "68", "585", "6851", "", "6 85"))
+    prefix = rng.choice(("685", "685", "684", "686", "68", "585", "6851", "", "6 85", " 685", "\t685", "0685", "685 ", "\x00685", "685\x00"))
     return prefix + "".join(rng.choice("0123456789ABN") for _ in range(rng.choice((0, 3, 15 - min(15, len(prefix))))))
 
 
